@@ -393,12 +393,28 @@ pub enum Outcome {
 /// rayon job cannot be caught) still leaves a concrete input behind for the check to report
 pub static CURRENT_CASE_FILE: std::sync::OnceLock<String> = std::sync::OnceLock::new();
 
+/// start of the library call in progress (milliseconds since the process began, 0 = none): a watchdog thread aborts the
+/// process when one call takes longer than `CASE_LIMIT_S` - the check then reports the noted case as the input on which
+/// the library does not return
+pub static CASE_STARTED_MS: std::sync::atomic::AtomicU64 = std::sync::atomic::AtomicU64::new(0);
+pub const CASE_LIMIT_S: u64 = 300;
+
+/// note what is about to be handed to the library (any JSON object text), for the check to report when the process dies
+pub fn note_current(json: &str) {
+    if let Some(p) = CURRENT_CASE_FILE.get() {
+        let _ = std::fs::write(p, json);
+    }
+}
+
 pub fn run_case(input: &[u8], opts: &HOpts) -> Outcome {
     if let Some(p) = CURRENT_CASE_FILE.get() {
         let _ = std::fs::write(p, format!("{{\"input_png_hex\": {}, \"options\": {}}}", jstr(&hex(input)), jstr(&opts.show())));
     }
     let o = opts.to_oxi();
-    match catch(|| oxipng::optimize_from_memory(input, &o)) {
+    CASE_STARTED_MS.store(crate::process_ms().max(1), std::sync::atomic::Ordering::Relaxed);
+    let r = catch(|| oxipng::optimize_from_memory(input, &o));
+    CASE_STARTED_MS.store(0, std::sync::atomic::Ordering::Relaxed);
+    match r {
         Some(Ok(v)) => Outcome::Ok(v),
         Some(Err(e)) => Outcome::Err(e.to_string()),
         None => Outcome::Panic,
@@ -768,6 +784,24 @@ pub fn oracle(ctx: &mut Ctx) {
                 st.count("chain_steps");
                 judge(&prop, &c2, &out2, &mut st);
             }
+        }
+    }
+    // ---- images with a colour isolated within its Adam7 pass, written interlaced at the presets that try the co-occurrence
+    // palette orders ----------------------------------------------------------------------------------------------------
+    if matches!(prop.as_str(), "C01" | "C02") {
+        for _ in 0..(ctx.n / 100).max(10) {
+            let (g, info) = crate::gen::gen_pass_isolated(&mut rng);
+            let img = g.pack(rng.bool());
+            let enc = crate::img::EncOpts::default();
+            let input = img.encode_png(&mut rng, &enc);
+            let mut opts = HOpts::from_preset(*rng.choose(&[3u8, 4]));
+            opts.interlace = Some(1);
+            opts.force = rng.bool();
+            if let Ok(_) = opts.deflate { opts.deflate = Ok(*rng.choose(&[8u8, 12])); }
+            let case = Case { img, class: info.class, enc, input, opts };
+            st.count("pass_isolated_cases");
+            let out = run_case(&case.input, &case.opts);
+            judge(&prop, &case, &out, &mut st);
         }
     }
     // ---- animated inputs: the property's predicate on the default image, C10's on the frames (they are filtered with
